@@ -107,6 +107,19 @@ func pool(thorough bool) (texts []string, leaves []string, small []string) {
 	nums := []string{"0", "-0", "0.0", "0e5", "1", "1.0", "1e0", "10e-1", "0.1", "1e-1", "0.10000000000000000001",
 		"9007199254740992", "9007199254740993", "9007199254740992.0", "1e400", "10e399", "2e400", "1e-400", "2e-400",
 		"-1", "1E0", "1.5", "15e-1", "1e1000001", "-1.0", "100", "1e2", "1E+2", "0.00", "-0.0e-7", "123456789012345678901234567890", "123456789012345678901234567891", "1.23456789012345678901234567890e29"}
+	// every spelling sign x integer part x fraction x exponent over small digit sets: the same value
+	// is reached through many (integer part, leading fraction zeros, exponent) combinations
+	// (a seeded change that kept the leading zeros of the fraction when the integer part is 0 was
+	// missed by the hand-picked list above)
+	for _, sg := range []string{"", "-"} {
+		for _, ip := range []string{"0", "1", "5", "10", "12", "50", "100"} {
+			for _, fr := range []string{"", ".0", ".5", ".05", ".50", ".005", ".25", ".10", ".00"} {
+				for _, ex := range []string{"", "e0", "e1", "e-1", "e2", "e-2", "E+1", "e-3", "e3", "e+0"} {
+					nums = append(nums, sg+ip+fr+ex)
+				}
+			}
+		}
+	}
 	strs := []string{`""`, `"a"`, `"A"`, `"\u0061"`, `"\n"`, `"\u000a"`, `"\u000A"`, `"é"`, `"\u00e9"`, `"\u00E9"`, `"😀"`, `"\ud83d\ude00"`, `"\uD83D\uDE00"`, `"1"`, `"\/"`, `"/"`, `"\\"`, `"\u005c"`, `"null"`, `" "`, `"a "`, `"\u0000"`, `"\t"`, `"\u0009"`}
 	leaves = append([]string{"null", "true", "false"}, nums...)
 	leaves = append(leaves, strs...)
